@@ -637,3 +637,23 @@ where
     }
     Err("Not enough shares to recover original secret")
 }
+
+/// `Sharks::recover` returning a key of *arbitrary length* (0, 8, 15, 16 or 24 bytes) or an
+/// error: what the Shamir layer hands back for foreign shares (e.g. shares without values give
+/// an empty key) must never crash `adss::recover`
+pub fn sharks_recover_any_len<'a, T>(_this: &star_sharks::Sharks, _shares: T) -> Result<Vec<u8>, &'static str>
+where
+    T: IntoIterator<Item = &'a star_sharks::Share>,
+    T::IntoIter: Iterator<Item = &'a star_sharks::Share>,
+{
+    let k: [u8; 24] = kani::any();
+    let sel: u8 = kani::any();
+    match sel {
+        0 => Err("not enough shares"),
+        1 => Ok(Vec::new()),
+        2 => Ok(k[..8].to_vec()),
+        3 => Ok(k[..15].to_vec()),
+        4 => Ok(k[..16].to_vec()),
+        _ => Ok(k.to_vec()),
+    }
+}
